@@ -201,6 +201,7 @@ sim::Json generate(const std::string& tier, uint64_t seed, uint64_t index) {
       content += text + (rng.chance(0.15) ? "\r\n" : "\n");
       lines.push(line);
     }
+    if (totality && rng.chance(0.15)) content += std::string(rng.chance(0.5) ? "tech:optionfile=" : "optionfile ") + "@/o.opt\n";   // the file names itself
     if (rng.chance(0.1) && content.size() > 1) content.resize(content.size() - 1);   // no newline at the end of the file
     sim::Json ft = sim::Json::object();
     static const char* fnames[] = {"tech:optionfile", "optionfile", "option:file", "OptionFile", "OPTION:FILE"};
@@ -286,7 +287,7 @@ sim::RunResult run(const sim::Json& sc) {
   else if (src.has("simdrv_options")) order.push_back(&src["simdrv_options"]);
   if (src.has("argv")) order.push_back(&src["argv"]);
   sim::clean_scratch();
-  for (auto& kv : sc["files"].obj()) sim::write_file(sim::scratch_dir() + kv.first, kv.second.as_str());
+  for (auto& kv : sc["files"].obj()) sim::write_file(sim::scratch_dir() + kv.first, subst(kv.second.as_str()));   // "@/" inside an option file names the scratch directory too
   for (auto& kv : src.obj()) {
     if (kv.first == "argv") { for (auto& t : kv.second.arr()) argv_s.push_back(subst(t["text"].as_str())); continue; }
     std::string text;
